@@ -400,3 +400,19 @@ package mqtt
 //@ ensures[C10,C18] !closed(c.writeSem) ==> len(c.writeSem) == 1 && qat(c.writeSem, 0) == boxed(connSignal, 0) && c.readConn == nil && c.bufr == nil && c.bigMessage == nil && len(c.peek) == 0
 //@ ensures[C11] !closed(c.writeSem) ==> forall(k, !has(c.perPacketID, k)) && len(c.pingAck) == 0
 //@ ensures[C14] forall(k, wire_len(k) == old(wire_len(k)))
+
+// resend: every pending record from seqNoOffset on is loaded and written in ascending order;
+// a record written completely counts as submitted even if a later one fails.
+//@ func mqtt.(*Client).resend -> err
+//@ requires conn != nil && c.persistence != nil && seqNoOffset <= seq.acceptN && seqNoOffset <= seq.submitN && (space == 32768 || space == 49152)
+//@ requires forall(k, st_has(c.persistence, k) ==> st_len(c.persistence, k) >= 2)
+//@ modifies seq.submitN, wire(conn), wire_len(conn), wdl(conn), region("elems.byte")
+//@ loop 1: modifies seq.submitN, wire(conn), wire_len(conn), wdl(conn), region("elems.byte")
+//@ loop 1: invariant seqNoOffset <= seqNo && seqNo <= seq.acceptN && seq.acceptN == old(seq.acceptN)
+//@ loop[C05] 1: invariant seq.submitN >= seqNo && seq.submitN >= old(seq.submitN) && (seq.submitN == old(seq.submitN) || seq.submitN == seqNo)
+//@ loop 1: invariant wire_len(conn) >= old(wire_len(conn)) && forall(k, 0, old(wire_len(conn)), wire(conn)[k] == old(wire(conn))[k])
+//@ at[C05,C01,C03] call writeTo#1: assert len(p) == st_len(c.persistence, seqNo % 16384 + space) && len(p) > 0 && forall(k, 1, len(p), p[k] == st_val(c.persistence, seqNo % 16384 + space)[k])
+//@ at[C05,C03] call writeTo#1: assert p[0] == ite(seqNo < seq.submitN && st_val(c.persistence, seqNo % 16384 + space)[0] / 16 == 3, st_val(c.persistence, seqNo % 16384 + space)[0] | 8, st_val(c.persistence, seqNo % 16384 + space)[0])
+//@ ensures[C01,C05] err == nil ==> seq.submitN == ite(old(seq.submitN) > seq.acceptN, old(seq.submitN), seq.acceptN)
+//@ ensures[C05] seq.submitN >= old(seq.submitN) && seq.acceptN == old(seq.acceptN)
+//@ ensures[C08] forall(k, 0, old(wire_len(conn)), wire(conn)[k] == old(wire(conn))[k])
